@@ -60,6 +60,10 @@ theorem uncovered_known : ∀ m ∈ uncovered, m = "TransitionObjectStorageClass
 def tableWithoutTransition : List (String × String × String) :=
   Gen.ObjectCache.overrides.filter (fun e => e.1 != "TransitionObjectStorageClass")
 
+/-- Every invalidating override invalidates AFTER the inner storage has executed the call (an invalidation
+before it would let a request served in between re-fill the cache with the old object: `early_invalidation_goes_stale`). -/
+theorem invalidation_follows_inner_call : ∀ e ∈ Gen.ObjectCache.invalidationPosition, e.2 = "after" := by decide
+
 /-- Only PutObject fills the cache from the request body. -/
 theorem only_put_fills : ∀ e ∈ Gen.ObjectCache.overrides, Mode.ofString e.2.1 = .putFill → e.1 = "PutObject" := by decide
 
@@ -484,6 +488,62 @@ theorem cache_transparent_asis_partial {σ} (I : Inner σ) (hI : InnerOK I) (max
       simp only [uncovered, List.mem_filter, not_and, Bool.not_eq_true'] at hnot
       simpa using hnot hm
   | _ => trivial
+
+/-! ### calls with other requests served while they are in flight -/
+
+/-- `run_transparent_st`: like `cache_transparent_partial`, also saying where both runs end. -/
+theorem run_transparent_st {σ} (I : Inner σ) (hI : InnerOK I) (p : Params) (hk : p.keepKey = true)
+    (ops : List Op) (s : σ) (c : Cache) (hc : Coh I s c) (hops : ∀ op ∈ ops, OpCovered p op) :
+    (runCachedSt I p s c ops).2 = (runInnerSt I s ops).2 ∧
+    (runCachedSt I p s c ops).1.1 = (runInnerSt I s ops).1 ∧
+    Coh I (runCachedSt I p s c ops).1.1 (runCachedSt I p s c ops).1.2 := by
+  induction ops generalizing s c with
+  | nil => exact ⟨rfl, rfl, hc⟩
+  | cons op ops ih =>
+    obtain ⟨h1, h2, h3⟩ := step_transparent I hI p hk s c op hc (hops op (by simp))
+    obtain ⟨i1, i2, i3⟩ := ih _ _ h3 (fun o ho => hops o (by simp [ho]))
+    simp only [runCachedSt, runInnerSt]
+    rw [h1, ← h2]
+    exact ⟨by rw [i1], i2, i3⟩
+
+/-- **window_transparent.** An override that invalidates AFTER the inner call stays transparent when other
+requests are served while the call is in flight at the inner storage: for every coherent cache, every covered
+call and any requests in the window, the outputs are those of the inner storage alone and the cache stays
+coherent — so every later read is answered like the inner storage answers it. -/
+theorem window_transparent {σ} (I : Inner σ) (hI : InnerOK I) (p : Params) (hk : p.keepKey = true)
+    (s : σ) (c : Cache) (hc : Coh I s c) (m : Mut) (hm : MutCovered p m) (reads : List Op)
+    (hr : ∀ op ∈ reads, OpCovered p op) :
+    (runWin I p false s c m reads).2 = (runInnerSt I s (reads ++ [.call m])).2 ∧
+    Coh I (runWin I p false s c m reads).1.1 (runWin I p false s c m reads).1.2 := by
+  have hops : ∀ op ∈ reads ++ [Op.call m], OpCovered p op := by
+    intro op hop
+    rcases List.mem_append.1 hop with h | h
+    · exact hr op h
+    · simp only [List.mem_singleton] at h; subst h; exact hm
+  obtain ⟨h1, _, h3⟩ := run_transparent_st I hI p hk (reads ++ [.call m]) s c hc hops
+  simp only [runWin, Bool.false_eq_true, if_false]
+  exact ⟨h1, h3⟩
+
+/-- A toy inner storage whose object "b/k" is replaced by CompleteMultipartUpload (state = which version). -/
+def toy2 : Inner Bool where
+  cur s k := if k = "b/k" then .ok (⟨if s then "e2" else "e1", 1, "k", "r"⟩, if s then "new" else "old") else .error "NoSuchKey"
+  apply s m := if m.method = "CompleteMultipartUpload" ∧ m.key = "b/k" then (true, true, []) else (s, false, [])
+
+/-- **Witness** (seeded change C20-3; realised on the real code by the gated-inner-store histories of the
+harness): if the override invalidates before the inner call, a GetObject served in the window re-caches
+the old object, and after the call has returned the middleware still answers the old object. -/
+theorem early_invalidation_goes_stale :
+    let p : Params := ⟨modeOfTable repairedTable, true, 100⟩
+    let w := runWin toy2 p true false Cache.empty { method := "CompleteMultipartUpload", key := "b/k" } [.get "b/k" {} true]
+    (stepCached toy2 p w.1.1 w.1.2 (.get "b/k" {} true)).2 ≠ (stepInner toy2 w.1.1 (.get "b/k" {} true)).2 := by
+  decide
+
+/-- …while the override as it is answers the new object (and `window_transparent` says so for all histories). -/
+example :
+    let p : Params := ⟨modeOfTable repairedTable, true, 100⟩
+    let w := runWin toy2 p false false Cache.empty { method := "CompleteMultipartUpload", key := "b/k" } [.get "b/k" {} true]
+    (stepCached toy2 p w.1.1 w.1.2 (.get "b/k" {} true)).2 = (stepInner toy2 w.1.1 (.get "b/k" {} true)).2 := by
+  decide
 
 /-! ### Negation witnesses for the current tree (sequential) -/
 
